@@ -74,7 +74,7 @@ def cases(draw):
     n = len(spec["rxns"])
     used = sorted({m for r in spec["rxns"] for m, c in r["mets"].items() if c != 0})
     relax = {}
-    if draw(st.integers(0, 2)) == 0:
+    if draw(st.integers(0, 2)) == 2:  # (shrinks towards the unrelaxed model)
         for mid in draw(st.lists(st.sampled_from(used), min_size=1, max_size=2, unique=True)):
             relax[mid] = list(draw(st.sampled_from(RELAX)))
     return {
@@ -224,7 +224,6 @@ def check_case(case, ctx):
     elif fva_kind == "float":
         fva_arg = float(fraction)
         raw = exact_fva(spec, relax, fraction, res0.value)
-        classes.append(f"fraction-{fraction}")
     elif fva_kind == "frame-cobra":
         fva_arg = flux_variability_analysis(model, fraction_of_optimum=fraction)
         raw = {rid: (float(fva_arg.at[rid, "minimum"]), float(fva_arg.at[rid, "maximum"])) for rid in rids}
@@ -232,8 +231,10 @@ def check_case(case, ctx):
         raw = exact_fva(spec, relax, fraction, res0.value)
         fva_arg = pd.DataFrame({"minimum": [raw[r][0] for r in rids], "maximum": [raw[r][1] for r in rids]}, index=rids)
     with_fva = raw is not None
+    if with_fva:
+        classes.append(f"fraction-{fraction}")
     undetermined = 0
-    what = f"solution={sol_kind}, fva={fva_kind}" + (f" ({fraction})" if with_fva and fva_kind != "frame-cobra" else "")
+    what = f"solution={sol_kind}, fva={fva_kind}" + (f" (fraction_of_optimum {fraction})" if with_fva else "")
 
     def check_range(where, rid, coef, got_lo, got_hi):
         elo, ehi = scaled_range(raw[rid], coef)
@@ -454,7 +455,7 @@ def hyp_phase(ctx):
 def phases(tier):
     if tier == "quick":
         return [Phase("hyp", hyp_phase, shards=8, params={"max_examples": 200, "budget_s": 50})]
-    return [Phase("hyp", hyp_phase, shards=16, params={"max_examples": 600, "budget_s": 500})]
+    return [Phase("hyp", hyp_phase, shards=16, params={"max_examples": 1500, "budget_s": 500})]
 
 
 CHECKS = {"summary": check_case}
